@@ -11,6 +11,10 @@ def cases(tier, seed):
             for batch in (0, 1):
                 yield dict(fn="fourier.nufft", args=dict(shape=shape, kind=kind, batch=batch, defaults=True, seed=seed))
                 yield dict(fn="fourier.nufft", args=dict(shape=shape, kind=kind, batch=batch, oversamp=2.0, width=4, seed=seed))
+            if not T and kind in ("random", "out") and shape in ([8], [7], [6, 5], [8, 8], [4, 5, 6]):
+                # odd / wide kernels: the adjoint and periodicity clauses hold for every width, the 0.3 % bound for oversamp=2
+                for os_, w in ((1.25, 3), (1.5, 5), (2.0, 5), (2.0, 6), (1.25, 3.5)):
+                    yield dict(fn="fourier.nufft", args=dict(shape=shape, kind=kind, batch=0, oversamp=os_, width=w, seed=seed))
             if T:
                 for os_, w in itertools.product((1.25, 1.5, 2.0), (3, 4, 5, 6)):
                     yield dict(fn="fourier.nufft", args=dict(shape=shape, kind=kind, batch=0, oversamp=os_, width=w, seed=seed))
